@@ -146,7 +146,7 @@ def run(tier):
         chk.count("mutants_accepted", agg["accepted"])
         chk.count("diags_in_imported_files", agg["diags_in_imported_files"])
         chk.extra["diagnostic_codes_seen"] = sorted(int(c) for c in agg["by_code"])
-        chk.distinct.update(("m", i) for i in range(min(agg["distinct_inputs"], agg["rejected"])))
+        chk.distinct_extra += min(agg["distinct_inputs"], agg["rejected"])
         chk.inconclusive += res["inconclusive"]
         for b in res["bad"]:
             if b["kind"] == "panic":
